@@ -2,7 +2,7 @@
 from props import funcs_common as FC
 from gens.programs import Opts
 
-THEOREMS = ['infinite_iff_no_derivation', 'infinite_iff_no_derivation_any_universe', 'verdict_mode_independent', 'finite_reports_whole_body', 'finite_has_valid_choice', 'first_choice_is_a_derivation', 'funcOk_from_syntax']
+THEOREMS = ['infinite_iff_no_derivation', 'infinite_iff_no_derivation_any_universe', 'verdict_mode_independent', 'finite_reports_whole_body', 'finite_has_valid_choice', 'first_choice_is_a_derivation', 'funcOk_from_syntax', 'verdict_exists_and_is_exact']
 RULE = ('generated functions biased towards failing loops (one failing loop, several loops that fail jointly, nested '
         'failing loops, a second loop after a failing one) x {early stop, run to completion}; verdict of the real '
         'Analysis.func compared with "no choice vector at which Spec.sem derives a matrix" (Lean predicate), the two '
